@@ -118,6 +118,9 @@ def check_C03(run):
         dict(name='restart-2k', consts=dict(Keys='{1, 2}', MaxTs='2'), genlen=4,
              acts=['write', 'delete', 'close_active', 'restore_active', 'restart'],
              restarts_set=store.restarts(), nkeys=2, sample=(1, 40) if q else (1, 2)),
+        dict(name='restart-quarantine', consts=dict(Keys='{1}', MaxTs='1'), genlen=5 if q else 6,
+             acts=['write', 'delete', 'close_active', 'restart', 'restart_corrupt'],
+             restarts_set=store.restarts(gs=(True,), dmgs=('keep',)), nkeys=1, sample=(1, 8) if q else (1, 1)),
         dict(name='restart-stale', consts=dict(Keys='{1}', MaxTs='2', DeferredFires='FALSE'), genlen=5,
              acts=['write', 'delete', 'close_active', 'restart'], hcfg_overrides=dict(deferred_fires=False),
              restarts_set=store.restarts(dmgs=('keep', 'stale')), nkeys=1, sample=(1, 10) if q else (1, 1)),
@@ -171,11 +174,16 @@ def check_C15(run):
     q = Q(run)
     mc = [dict(name='mc-c15', consts=dict(Keys='{1}', MaxTs='1', Metas='{0}', MaxRecs='0'), max_ops=3 if q else 4, max_blob=2,
                acts=['write', 'delete', 'close_active', 'create_active', 'restore_active', 'force_update', 'restart'],
-               damages=('keep', 'lose'))]
+               damages=('keep', 'lose')),
+          dict(name='mc-c15-quar', consts=dict(Keys='{1}', MaxTs='1', Metas='{0}', MaxRecs='0'), max_ops=2 if q else 3, max_blob=3,
+               acts=['write', 'close_active', 'create_active', 'restart', 'restart_corrupt'], damages=('keep',))]
     suites = [
         dict(name='counts-2k', consts=dict(Keys='{1, 2}', MaxTs='2'), genlen=4,
              acts=['write', 'delete', 'close_active', 'restore_active', 'create_active', 'force_update', 'restart'],
              restarts_set=store.restarts(dmgs=('keep', 'lose')), nkeys=2, sample=(1, 30) if q else (1, 2)),
+        dict(name='counts-quarantine', consts=dict(Keys='{1}', MaxTs='1'), genlen=5 if q else 6,
+             acts=['write', 'close_active', 'create_active', 'restart', 'restart_corrupt'],
+             restarts_set=store.restarts(gs=(True,), dmgs=('keep',)), nkeys=1, sample=(1, 6) if q else (1, 1)),
         dict(name='counts-holes', consts=dict(Keys='{1}', MaxTs='1'), genlen=6 if q else 7,
              acts=['write', 'delete', 'close_active', 'restore_active', 'create_active', 'restart'],
              restarts_set=store.restarts(gs=(True,), dmgs=('keep',)), nkeys=1, sample=(1, 20) if q else (1, 2)),
@@ -253,8 +261,11 @@ def check_C07(run):
         dict(name='harm-2k', consts=dict(Keys='{1, 2}', MaxTs='2'), genlen=4,
              acts=['write', 'delete', 'close_active', 'restore_active', 'create_active', 'force_update', 'restart'],
              restarts_set=store.restarts(), nkeys=2, sample=(1, 60) if q else (1, 4)),
+        dict(name='harm-quarantine', consts=dict(Keys='{1}', MaxTs='1'), genlen=5 if q else 6,
+             acts=['write', 'close_active', 'create_active', 'restart', 'restart_corrupt'],
+             restarts_set=store.restarts(gs=(True,), dmgs=('keep',)), nkeys=1, sample=(1, 12) if q else (1, 1)),
         dict(name='sim', consts=dict(Keys='{1, 2}', MaxTs='3', Metas='{0, 1}', OffloadLevels='{0, 1}'), genlen=30,
-             acts=['write', 'delete', 'restart'] + LIFE_ALL, preds=('always', 'ifactive'), nkeys=2,
+             acts=['write', 'delete', 'restart', 'restart_corrupt'] + LIFE_ALL, preds=('always', 'ifactive'), nkeys=2,
              restarts_set=store.restarts(), simulate=200 if q else 10000, workers=1 if q else 8),
     ]
     return io_check(run, suites, ['C07'])
